@@ -773,6 +773,19 @@ fn main() {
             }
         }
     }
+    // the quick tier skips repeat = 3 in the sweep above: a handful of duplicate-packets runs with a lost reply / lost datagram (C16)
+    if quick {
+        for (len, ws) in [(20usize, 1u16), (20, 2), (45, 4)] {
+            for f in [Fault::None, Fault::DropReply(1), Fault::DropReply(2), Fault::DropEmitted(2), Fault::DropEmitted(4)] {
+                runs += 1;
+                download(&dir, len, ws, 3, f.clone(), &mut verdict, "sender");
+                if !matches!(f, Fault::DropReply(_)) {
+                    runs += 1;
+                    upload(&dir, len, ws, 3, f, &mut verdict, "receiver");
+                }
+            }
+        }
+    }
     // block-number wrap-around (C15): > 65536 blocks, a fault in the window that straddles the wrap
     if which == "all" || which == "C15" || which == "C02" || which == "C01" {
         let len = 65546 * BLK - 3;
